@@ -16,12 +16,13 @@
 
   Where the code as written is NOT alias-safe / input-preserving / history-free the negation is proved
   (`…_counterexample`) together with the exact value the code computes:
-    * bgv.tensorScaleInvariant, out = op1      — output Scale = sinv(scale0, scale0)   [NEW while transcribing]
-    * bgv.matchScaleThenEvaluateInPlace, out = op1 — op1 overwritten before it is read
-    * bgv.Add / bgv.Mul (*big.Int)             — caller's big.Int rewritten
+    * bgv.tensorScaleInvariant, out = op1      — output Scale = sinv(scale0, scale0)   [NEW while transcribing;
+                                                 fixed: a817070; the model follows HEAD, old programs kept as `…Old`]
+    * bgv.matchScaleThenEvaluateInPlace, out = op1 — op1 overwritten before it is read   [fixed: 48fb64a]
+    * bgv.Add / bgv.Mul (*big.Int)             — caller's big.Int rewritten               [fixed: 914a9ce]
     * ring.DivRoundByLastModulus               — input polynomial rewritten (fixed in /repo by commit 64e1afc;
                                                  the model follows HEAD, the old program is kept as `divRoundProgOld`)
-    * ct+ct Add/Sub into an output of larger previous degree — stale polynomial kept
+    * ct+ct Add/Sub into an output of larger previous degree — stale polynomial kept  [fix C09-2, `addIntoOld`]
   Each is replayed on the real code by a harness probe (harness/c09.go).
 
   Not modelled: coefficient-level aliasing inside one ring operation (the ring kernels are
@@ -72,40 +73,61 @@ theorem alias_sound_bgv_tensorScaleInvariant_poly (I : Interp α) (h : TensorLaw
 
 example : TensorLaws intI .mformM := intI_tensorLaws_mformM
 
-/-- … the output scale is right under every pattern except `out = op1` … -/
-theorem alias_sound_bgv_tensorScaleInvariant_scale_partial (I : Interp α) (relin : Bool) (al : Alias)
-    (hal : al ≠ .outOp1) (σ : Store α) :
+/-- … and so is the output scale (HEAD, commit a817070: `ct1.Scale`, not `tmp1Q0.Scale`). -/
+theorem alias_sound_bgv_tensorScaleInvariant_scale (I : Interp α) (relin : Bool) (al : Alias) (σ : Store α) :
     run I (bgvTensorSIProg relin al.pat) σ (L al.pat.out fScale) =
       I.fn .sinv [σ (L al.pat.op0 fScale), σ (L al.pat.op1 fScale)] :=
-  bgvTensorSI_scale_alias_sound I relin al hal σ
+  bgvTensorSI_scale_alias_sound I relin al σ
+
+/-- BEFORE commit a817070 (`bgvTensorSIProgOld`) the scale was right under every pattern except `out = op1` … -/
+theorem alias_sound_bgv_tensorScaleInvariant_scale_partial (I : Interp α) (relin : Bool) (al : Alias)
+    (hal : al ≠ .outOp1) (σ : Store α) :
+    run I (bgvTensorSIProgOld relin al.pat) σ (L al.pat.out fScale) =
+      I.fn .sinv [σ (L al.pat.op0 fScale), σ (L al.pat.op1 fScale)] :=
+  bgvTensorSIOld_scale_alias_sound I relin al hal σ
 
 example : Alias.outOp0 ≠ Alias.outOp1 := by decide
 
-/-- … and WRONG for `out = op1`: FULL STATEMENT (scale right for all patterns) is false. -/
+/-- … and WRONG for `out = op1`: the full statement was false of the code before the fix. -/
 theorem bgv_tensorScaleInvariant_outOp1_counterexample :
-    ∃ σ : Store Int, run intI (bgvTensorSIProg false Alias.outOp1.pat) σ (L 1 fScale) ≠
-      intI.fn .sinv [σ (L 0 fScale), σ (L 1 fScale)] := bgvTensorSI_outOp1_counterexample
+    ∃ σ : Store Int, run intI (bgvTensorSIProgOld false Alias.outOp1.pat) σ (L 1 fScale) ≠
+      intI.fn .sinv [σ (L 0 fScale), σ (L 1 fScale)] := bgvTensorSIOld_outOp1_counterexample
 
-/-- bgv.matchScaleThenEvaluateInPlace: sound for distinct / out = op0 / op0 = op1 … -/
+/-- bgv.matchScaleThenEvaluateInPlace (HEAD, commit 48fb64a: `el1` is copied first when it is the
+    receiver): sound for all five patterns. -/
+theorem alias_sound_bgv_matchScale (I : Interp α) (hcopy : ∀ x, I.fn .copy [x] = x) (al : Alias) (σ : Store α) :
+    type_of% (bgvMatchScale_alias_sound I hcopy al σ) := bgvMatchScale_alias_sound I hcopy al σ
+
+/-- BEFORE commit 48fb64a (`bgvMatchScaleProgOld`): sound for distinct / out = op0 / op0 = op1 only … -/
 theorem alias_sound_bgv_matchScale_partial (I : Interp α) (al : Alias)
-    (hal : al ≠ .outOp1 ∧ al ≠ .allEq) (σ : Store α) : type_of% (bgvMatchScale_alias_sound I al hal σ) := bgvMatchScale_alias_sound I al hal σ
+    (hal : al ≠ .outOp1 ∧ al ≠ .allEq) (σ : Store α) :
+    type_of% (bgvMatchScaleOld_alias_sound I al hal σ) := bgvMatchScaleOld_alias_sound I al hal σ
 
 example : Alias.outOp0 ≠ Alias.outOp1 ∧ Alias.outOp0 ≠ Alias.allEq := by decide
 
-/-- … FALSE for `out = op1` (accepted by bgv.Add/Sub without error). -/
+/-- … FALSE for `out = op1` (which bgv.Add/Sub accepted without error). -/
 theorem bgv_matchScale_outOp1_counterexample :
-    ∃ σ : Store Int, run intI (bgvMatchScaleProg Alias.outOp1.pat) σ (L 1 0) ≠
+    ∃ σ : Store Int, run intI (bgvMatchScaleProgOld Alias.outOp1.pat) σ (L 1 0) ≠
       matchF intI (σ (L 0 fScale)) (σ (L 1 fScale)) (σ (L 0 0)) (σ (L 1 0)) :=
-  bgvMatchScale_outOp1_counterexample
+  bgvMatchScaleOld_outOp1_counterexample
 
-/-- bgv.Add / bgv.Mul (*big.Int): the result is right, the caller's number is rewritten. -/
+/-- bgv.Add / bgv.Mul (*big.Int) at HEAD (commits 914a9ce, 5801a27): right result, receiver scale set,
+    the caller's number intact. -/
+theorem bgv_addBigInt_sound (I : Interp α) (hcopy : ∀ x, I.fn .copy [x] = x) (al : Alias)
+    (hal : al = .distinct ∨ al = .outOp0) (σ : Store α) :
+    type_of% (bgvAddBig_sound I hcopy al hal σ) := bgvAddBig_sound I hcopy al hal σ
+
+theorem bgv_mulBigInt_sound (I : Interp α) (al : Alias) (hal : al = .distinct ∨ al = .outOp0) (σ : Store α) :
+    type_of% (bgvMulBig_sound I al hal σ) := bgvMulBig_sound I al hal σ
+
+/-- BEFORE commit 914a9ce (`…ProgOld`) the caller's big.Int was rewritten. -/
 theorem bgv_addBigInt_inputs_counterexample :
-    ∃ σ : Store Int, run intI (bgvAddBigProg Alias.distinct.pat) σ (L bigArg 0) ≠ σ (L bigArg 0) :=
-  bgvAddBig_inputs_counterexample
+    ∃ σ : Store Int, run intI (bgvAddBigProgOld Alias.distinct.pat) σ (L bigArg 0) ≠ σ (L bigArg 0) :=
+  bgvAddBigOld_inputs_counterexample
 
 theorem bgv_mulBigInt_inputs_counterexample :
-    ∃ σ : Store Int, run intI (bgvMulBigProg Alias.distinct.pat) σ (L bigArg 0) ≠ σ (L bigArg 0) :=
-  bgvMulBig_inputs_counterexample
+    ∃ σ : Store Int, run intI (bgvMulBigProgOld Alias.distinct.pat) σ (L bigArg 0) ≠ σ (L bigArg 0) :=
+  bgvMulBigOld_inputs_counterexample
 
 /-- rlwe.Evaluator.Automorphism: distinct and in-place. -/
 theorem alias_sound_rlwe_automorphism (I : Interp α) (al : Alias) (hal : al = .distinct ∨ al = .outOp0)
@@ -158,21 +180,29 @@ theorem resize_keeps_prefix (z : α) (d : Nat) (v : List α) (i : Nat) (hi : i <
 
 example : (2 : Nat) < min [1, 2, 3, 4].length (2 + 1) := by decide
 
-/-- ct+ct Add is history-free when the output's previous degree does not exceed the operands' … -/
+/-- ct+ct Add (code with fix C09-2) is history-free: the previous content and degree of the receiver
+    do not matter. -/
+theorem add_history_free (z : α) (add : α → α → α) (op0 op1 out : List α) (h0 : op0 ≠ []) :
+    addInto z add op0 op1 out = addLists add op0 op1 := addInto_history_free z add op0 op1 out h0
+
+example : ([1, 2] : List Int) ≠ [] := by decide
+
+/-- BEFORE fix C09-2 (`addIntoOld`): history-free only when the receiver's previous degree does not
+    exceed the operands' … -/
 theorem add_history_free_partial (z : α) (add : α → α → α) (op0 op1 out : List α)
     (h : out.length ≤ max op0.length op1.length) (h0 : op0 ≠ []) :
-    addInto z add op0 op1 out = addLists add op0 op1 := addInto_history_free z add op0 op1 out h h0
+    addIntoOld z add op0 op1 out = addLists add op0 op1 := addIntoOld_history_free z add op0 op1 out h h0
 
 example : [7, 8].length ≤ max [1, 2].length [10, 20].length ∧ [1, 2] ≠ ([] : List Int) := by decide
 
-/-- … and NOT otherwise (degree-2 output reused for a degree-1 sum keeps its third polynomial). -/
+/-- … and NOT otherwise (degree-2 receiver reused for a degree-1 sum kept its third polynomial). -/
 theorem add_history_counterexample :
-    addInto (0 : Int) (· + ·) [1, 2] [10, 20] [7, 8, 9] = [11, 22, 9] ∧
-    addInto (0 : Int) (· + ·) [1, 2] [10, 20] [0, 0] = [11, 22] := addInto_degree_residue_counterexample
+    addIntoOld (0 : Int) (· + ·) [1, 2] [10, 20] [7, 8, 9] = [11, 22, 9] ∧
+    addIntoOld (0 : Int) (· + ·) [1, 2] [10, 20] [0, 0] = [11, 22] := addIntoOld_degree_residue_counterexample
 
 -- TESTS (a `decide` over samples, not theorems about all inputs): the driver's predictions
-example : predictAlias .bgvMatchScale .outOp1 6 2 = .differs := by decide
-example : predictAlias .bgvTensorSI .outOp1 6 2 = .differs := by decide
+example : predictAlias .bgvMatchScale .outOp1 6 2 = .sameAsFresh := by decide
+example : predictAlias .bgvTensorSI .outOp1 6 2 = .sameAsFresh := by decide
 example : predictAlias .ckksEval .outOp1 2 6 = .sameAsFresh := by decide
 example : predictInputs .divRound 4 4 = .sameAsFresh := by decide
 
@@ -185,9 +215,13 @@ open Lattigo.Props.C09 in
 #print axioms Lattigo.Props.C09.alias_sound_bgv_tensorStandard
 #print axioms Lattigo.Props.C09.alias_sound_bgv_tensorStandard_relin
 #print axioms Lattigo.Props.C09.alias_sound_bgv_tensorScaleInvariant_poly
+#print axioms Lattigo.Props.C09.alias_sound_bgv_tensorScaleInvariant_scale
 #print axioms Lattigo.Props.C09.alias_sound_bgv_tensorScaleInvariant_scale_partial
 #print axioms Lattigo.Props.C09.bgv_tensorScaleInvariant_outOp1_counterexample
+#print axioms Lattigo.Props.C09.alias_sound_bgv_matchScale
 #print axioms Lattigo.Props.C09.alias_sound_bgv_matchScale_partial
+#print axioms Lattigo.Props.C09.bgv_addBigInt_sound
+#print axioms Lattigo.Props.C09.bgv_mulBigInt_sound
 #print axioms Lattigo.Props.C09.bgv_matchScale_outOp1_counterexample
 #print axioms Lattigo.Props.C09.bgv_addBigInt_inputs_counterexample
 #print axioms Lattigo.Props.C09.bgv_mulBigInt_inputs_counterexample
@@ -200,5 +234,6 @@ open Lattigo.Props.C09 in
 #print axioms Lattigo.Props.C09.ring_divRound_pre64e1afc_inputs_counterexample
 #print axioms Lattigo.Props.C09.alias_sound_ring_divRoundNTT
 #print axioms Lattigo.Props.C09.resize_keeps_prefix
+#print axioms Lattigo.Props.C09.add_history_free
 #print axioms Lattigo.Props.C09.add_history_free_partial
 #print axioms Lattigo.Props.C09.add_history_counterexample
